@@ -47,6 +47,10 @@ var c02Factors = []struct {
 }{{"base", 3}, {"bits", 256}, {"anchor", 4}, {"identity", 3}, {"expiry", 3}, {"certTime", 2}, {"revocation", 4}, {"plugin", 10},
 	{"vIdentity", 3}, {"vRevocation", 3}, {"callErr", 2}, {"crit", 3}, {"scheme", 2}, {"format", 2}, {"legacy", 2}, {"pver", 6}, {"prelude", 6}, {"entry", 2}, {"ctor", 2}, {"minver", 6}}
 
+var c02CritKeys = []string{"com.example.critical", "io.cncf.notary.verificationPluginPolicy", "io.cncf.notary.verificationPlugin.constraint",
+	"io.cncf.notary.verificationPluginMinVersion2", "IO.CNCF.NOTARY.VERIFICATIONPLUGIN", "io.cncf.notary.verificationPlugin ", "io.cncf.notary.verificationPluginMinVersion.",
+	"io.cncf.notary.verificationplugin", "verificationPlugin", "io.cncf.notary.verificationPlugi"}
+
 func (c02) Gen(r *rand.Rand, tier string, idx int) *core.Plan {
 	w := map[string]int64{}
 	p := &core.Plan{World: w}
@@ -83,6 +87,9 @@ func (c02) Gen(r *rand.Rand, tier string, idx int) *core.Plan {
 	w["vRevocation"] = healthy(3, 50)
 	w["callErr"] = healthy(2, 90)
 	w["crit"] = healthy(3, 50)
+	if w["crit"] != 0 && r.IntN(2) == 0 {
+		w["critKey"] = int64(1 + r.IntN(len(c02CritKeys)-1))
+	}
 	w["scheme"] = r.Int64N(2)
 	w["format"] = r.Int64N(2)
 	w["legacy"] = r.Int64N(2)
@@ -155,7 +162,9 @@ func (l c02) Exec(env *core.Env) *core.Result {
 				minVersionInvalid = w["minver"]%int64(len(c02MinVersions)) != 0
 			}
 		}
-		const critKey = "com.example.critical"
+		// the key of the critical attribute: an ordinary one, or one that resembles the two plugin headers (which are
+		// the only critical extended attributes the verifier itself understands) without being either
+		critKey := c02CritKeys[w["critKey"]%int64(len(c02CritKeys))]
 		if w["crit"] != 0 {
 			so.ExtAttrs = append(so.ExtAttrs, signature.Attribute{Key: critKey, Critical: true, Value: "must-understand"})
 		}
@@ -282,8 +291,8 @@ func (l c02) Exec(env *core.Env) *core.Result {
 		if plug != 0 && minVersionInvalid {
 			pluginProblem = true // the signed minimum version is no semantic version
 		}
-		situation := fmt.Sprintf("anchor=%d identity=%d expiry=%d certTime=%d revocation=%d plugin=%d verdicts=%d/%d callErr=%d crit=%d scheme=%d fmt=%d legacy=%d bits=%d pver=%d prelude=%d entry=%d minver=%d",
-			w["anchor"], w["identity"], w["expiry"], w["certTime"], w["revocation"], plug, w["vIdentity"], w["vRevocation"], w["callErr"], w["crit"], w["scheme"], w["format"], w["legacy"], w["bits"], w["pver"], w["prelude"], w["entry"], w["minver"])
+		situation := fmt.Sprintf("anchor=%d identity=%d expiry=%d certTime=%d revocation=%d plugin=%d verdicts=%d/%d callErr=%d crit=%d/%d scheme=%d fmt=%d legacy=%d bits=%d pver=%d prelude=%d entry=%d minver=%d",
+			w["anchor"], w["identity"], w["expiry"], w["certTime"], w["revocation"], plug, w["vIdentity"], w["vRevocation"], w["callErr"], w["crit"], w["critKey"], w["scheme"], w["format"], w["legacy"], w["bits"], w["pver"], w["prelude"], w["entry"], w["minver"])
 		accepted := map[string]bool{}
 		for base := int64(0); base < 3; base++ {
 			levelName, override, enf := levelFromKnobs(base, w["bits"])
